@@ -67,6 +67,42 @@ PROPS = {
                 "call of the same family. Non-trivial = >=2 updates with a non-zero carried partial block between them. Distinct = hash of the case JSON.",
         "assumptions": COMMON_ASSUME,
     },
+    "C05": {
+        "title": "mh_sha1/mh_sha256 equal the multi-hash definition for any update segmentation",
+        "variant": "default",
+        "quick": {"cases": 60000},
+        "thorough": {"cases": 2000000, "opts": ["bigmax=4194304"]},
+        "rule": "rapidcheck cases over {mh_sha1, mh_sha256} x {base, sse, avx, avx2, avx512, legacy, isal_}; stream from a seed; total length mixture (0, 1..70, "
+                "1015..1017, 1023..1025, k*1024+{0,+-1,+-8,+-9}, up to bigmax); partition into 1..9 update calls with cut points biased to 1024-byte boundaries "
+                "(zero-length updates included); every update buffer guard-page flush or shifted, read-only. Oracle: reference built from the definition "
+                "(SHA padding to 1024, word round-robin to 16 segments, SHA compress per segment, final SHA over the word-major digest matrix); all partitions "
+                "and families must agree with it. Non-trivial = >=2 updates and some update starts with a carried partial block and crosses a 1024 boundary.",
+        "assumptions": COMMON_ASSUME + ["the multi-hash reference is validated only by agreement of all 7 independent entry families with it (no external oracle exists)",
+                                         "streams close to 2^32 bytes are sampled only by the thorough tier of C15-style periodic buffers (not yet in this check)"],
+    },
+    "C10": {
+        "title": "mh_sha1_murmur3_x64_128 returns both digests as if computed separately",
+        "variant": "default",
+        "quick": {"cases": 60000},
+        "thorough": {"cases": 2000000, "opts": ["bigmax=4194304"]},
+        "rule": "as C05 for the stitched function x {base, sse, avx, avx2, avx512, legacy, isal_} with 64-bit seeds (0, 2^32+-1, 2^63, 2^64-1, random). Oracle: mh_sha1 part "
+                "= the multi-hash reference; murmur part = independent MurmurHash3_x64_128 with h1=h2=seed over the whole stream (reference checked against "
+                "published vectors). Non-trivial = total % 16 != 0 and >=1 update crossing a 1024 boundary.",
+        "assumptions": COMMON_ASSUME,
+    },
+    "C09": {
+        "title": "Rolling-hash boundaries depend only on the last w bytes, not on call splitting",
+        "variant": "default",
+        "quick": {"cases": 40000},
+        "thorough": {"cases": 1500000},
+        "rule": "rapidcheck cases: w in 1..48, w init bytes and a stream (<= 8 KiB) from a seed, mask with 0..12 random bits (or fully random) and trigger = random & mask, "
+                "a cyclic list of max_len values (0, <= w, w+1, w+2..w+9, up to 2000) cutting the stream into run calls that resume at the returned offset; scan loop "
+                "forced to base/_00/_04 through the dispatch pointer (hook) or left to the dispatcher; isal_ and legacy entry points; buffers start-flush (buffer[-1] "
+                "unmapped) or end-flush. Oracle: per call the first position whose from-scratch window hash (frozen copy of the constant table) satisfies "
+                "(hash & mask) == trigger, compared with *offset, *match and state->hash; library table compared with the frozen copy; mask_gen against its "
+                "closed form. Non-trivial = a hit within the first w bytes of a call, a hit on the last byte of a call, or a call with max_len < w.",
+        "assumptions": COMMON_ASSUME + ["window w = 0 and mask_gen shift >= 32 are outside the documented domain and not generated"],
+    },
 }
 
 # properties not (yet) claimed; kept current as checks are added
